@@ -222,7 +222,7 @@ def check_illformed(ctx, img, fam, fails):
             fails.append(Failure({'kind': 'insp', 'fmt': img.fmt, 'content': img.field, 'length': n, 'wellformed': False,
                                   'sizes_a': G.pack_sizes(ref_sizes), 'sizes_b': G.pack_sizes(small), 'tag': img.tag},
                                  {'kind': 'virtual-size-depends-on-chunking',
-                                  'what': '%s (ill-formed, %s): virtual_size %s under 512-byte blocks, %s under %s'
+                                  'what': '%s (not a well-formed image: %s): virtual_size %s under 512-byte blocks, %s under %s'
                                           % (img.fmt, img.tag, ref, got, G.pack_sizes(small)[:8]),
                                   'classes': G.classes_of(img.fmt, img.data)}))
             return True
@@ -235,8 +235,15 @@ def search(ctx, seeds, full=False):
     for s in [s for s in seeds if s.get('kind') == 'insp'][:40]:
         # a disagreeing case carries no declared size: look for chunk-dependence of virtual_size on its bytes
         data = G.decode_content(s['content'])
-        img = G.Img(s['fmt'], data, [64, 512, G.H, 256 * G.K], s.get('tag', 'seed'))
-        check_illformed(ctx, img, [('seed', G.unpack_sizes(s['sizes']))] + family(img, rng, ctx.quick, False), fails)
+        img = G.Img(s['fmt'], data, [64, 512, G.H, 256 * G.K], 'seed: ' + s.get('tag', ''), declared=s.get('declared'),
+                    size_at=s.get('size_at'), params=s.get('params'), wellformed='declared' in s)
+        fam = [('seed', G.unpack_sizes(s['sizes']))] + family(img, rng, ctx.quick, False)
+        if img.wellformed:
+            check_wellformed(ctx, img, img.declared, fam, fails, 'virtual-size-is-not-the-declared-size')
+        else:
+            check_illformed(ctx, img, fam, fails)
+        if len(fails) >= 5:
+            return fails
     rounds = (2 if full else 1) if ctx.quick else (3 if full else 2)
     for _ in range(rounds):
         imgs = c07_images(ctx, rng, for_search=True)
